@@ -16,6 +16,7 @@ import (
 	"github.com/ipfs/go-unixfsnode"
 	"github.com/ipld/go-ipld-prime"
 	"github.com/ipld/go-ipld-prime/datamodel"
+	cidlink "github.com/ipld/go-ipld-prime/linking/cid"
 	"github.com/ipld/go-ipld-prime/node/basicnode"
 	"pgregory.net/rapid"
 )
@@ -381,6 +382,39 @@ func TestC12_P_HamtFaults(t *testing.T) {
 			}
 			if nerr != wantErrs {
 				t.Fatalf("C12 hamt [%s] iteration reported %d errors, want one per missing shard met = %d", desc, nerr, wantErrs)
+			}
+			// the typed iterator has no error result: a step that could not be made yields (nil, nil) - that is its one signal
+			// per missing shard, and the entries reachable without the missing shards still come exactly once
+			if nd, ok := func() (nativeDir, bool) {
+				n, _ := loadReified(ls, root, "unixfs")
+				d, ok := n.(nativeDir)
+				return d, ok
+			}(); ok {
+				tnames := map[string]bool{}
+				nils, tsteps := 0, 0
+				must(t, "typed iteration under fault", func() {
+					for it := nd.Iterator(); !it.Done(); {
+						tsteps++
+						if tsteps > 2*nlinks+10 {
+							t.Fatalf("C12 hamt [%s] typed iteration does not terminate (%d steps, %d links)", desc, tsteps, nlinks)
+						}
+						k, v := it.Next()
+						if k == nil || v == nil {
+							nils++
+							continue
+						}
+						if tnames[k.String()] {
+							t.Fatalf("C12 hamt [%s] typed iteration yielded %q twice", desc, k.String())
+						}
+						tnames[k.String()] = true
+						if c := v.Link().(cidlink.Link).Cid; c != member[k.String()] {
+							t.Fatalf("C12 hamt [%s] typed iteration yielded %q -> %v", desc, k.String(), c)
+						}
+					}
+				})
+				if len(tnames) != len(wantEnts) || nils != wantErrs {
+					t.Fatalf("C12 hamt [%s] typed iteration yielded %d entries and %d failed steps; %d entries are reachable without the missing shards and %d missing shards are met", desc, len(tnames), nils, len(wantEnts), wantErrs)
+				}
 			}
 			// the node that lived through the faults: Length() has no error channel, so what it returns while a shard is
 			// missing is not judged - but once storage is healthy again the same node must report the whole directory
@@ -772,5 +806,134 @@ func TestC12_P_FailHealContinue(t *testing.T) {
 		}
 		ev.Case(fmt.Sprintf("%s d=%d %s buf=%s", fc.Writer, fc.Tree.Depth(), route, bucket(bufSize)), true, "route:"+route, "buf:"+bucket(bufSize))
 		ev.Sample(map[string]any{"file": fc.Desc, "route": route, "buf": bufSize, "missing_span_start": firstStart})
+	})
+}
+
+// ---------------------------------------------------------------- positioned reads on very wide nodes
+
+const c12WideRule = "case = file written with a link width of 257..700 (so that one node holds hundreds of links) x a position strictly inside or at the start of a chunk x the k-th block load after the Seek failing once (k = 1..3, drawn fault kind) or the chunk at the position being unavailable; Seek, ReadFull of a few bytes, the failed read retried on the same reader, then the rest of the file; " +
+	"oracle = every read returns bytes of the file at the reader's position - a prefix of the request followed by the injected error, or all of it; after a transient fault the retried read and the rest of the stream are exactly the file from the position on; never wrong bytes, never a silent short read; every case non-trivial; distinct by (width, levels, position class, fault)"
+
+func TestC12_P_WideNodesPositionedFaults(t *testing.T) {
+	ev := newEvid(t, c12WideRule)
+	rapid.Check(t, func(t *rapid.T) {
+		w := rapid.SampledFrom([]int{257, 258, 300, 512, 700}).Draw(t, "width")
+		cs := rapid.IntRange(2, 5).Draw(t, "chunkSize")
+		nchunks := w
+		switch rapid.IntRange(0, 2).Draw(t, "levels") {
+		case 1:
+			nchunks = w + rapid.IntRange(1, w).Draw(t, "more") // two nodes below the root, the first one full
+		case 2:
+			nchunks = rapid.IntRange(257, w).Draw(t, "fewer")
+		}
+		data := lcgBytes(nchunks*cs-rapid.IntRange(0, cs-1).Draw(t, "shortTail"), byte(w), 0)
+		st := NewStore()
+		root, _, err := buildFile(st, data, fmt.Sprintf("size-%d", cs), w)
+		if err != nil {
+			t.Fatalf("build: %v", err)
+		}
+		ci := rapid.IntRange(0, nchunks-1).Draw(t, "chunk")
+		in := rapid.IntRange(0, cs-1).Draw(t, "within")
+		off := int64(ci*cs + in)
+		if off >= int64(len(data)) {
+			off = int64(len(data)) - 1
+		}
+		want := rapid.IntRange(1, 12).Draw(t, "readLen")
+		if off+int64(want) > int64(len(data)) {
+			want = int(int64(len(data)) - off)
+		}
+		persistent := rapid.IntRange(0, 3).Draw(t, "persistent") == 0
+		k := rapid.IntRange(1, 3).Draw(t, "kthLoad")
+		ls := st.LinkSystem()
+		rn, err := loadReified(ls, root, "unixfs")
+		if err != nil {
+			t.Fatal(err)
+		}
+		rs, err := rn.(datamodel.LargeBytesNode).AsLargeBytes()
+		if err != nil {
+			t.Fatal(err)
+		}
+		if rapid.Bool().Draw(t, "usedBefore") {
+			// the reader has delivered the first bytes already: the Seek below repositions a reader in use
+			head := make([]byte, 3)
+			if _, err := io.ReadFull(rs, head); err != nil || !bytes.Equal(head, data[:3]) {
+				t.Fatalf("C12 wide node (width %d): first bytes: %x %v", w, head, err)
+			}
+		}
+		st.ResetLogs()
+		if persistent {
+			tr, _ := st.FileTree(root, 0)
+			for _, n := range tr.All() {
+				if len(n.Kids) == 0 && n.Start <= off && off < n.End {
+					st.Missing = map[cid.Cid]bool{n.Cid: true}
+				}
+			}
+		} else {
+			st.FaultKind = genFaultKind(t)
+			st.FailReadAt = k
+		}
+		fault := fmt.Sprintf("transient#%d", k)
+		if persistent {
+			fault = "unavailable"
+		}
+		desc := fmt.Sprintf("width %d, %d chunks of %d bytes, reader moved to %d (chunk %d + %d), %s", w, nchunks, cs, off, ci, in, fault)
+		var dev string
+		must(t, "positioned read on a wide node", func() {
+			pos, err := rs.Seek(off, io.SeekStart)
+			if err != nil {
+				if !isInjected(err) {
+					dev = fmt.Sprintf("Seek failed with %v", err)
+				}
+				// a Seek that failed leaves the position undefined: start over
+				st.FailReadAt, st.Missing = 0, map[cid.Cid]bool{}
+				if pos, err = rs.Seek(off, io.SeekStart); err != nil || pos != off {
+					dev = fmt.Sprintf("Seek after the fault was gone = %d, %v", pos, err)
+					return
+				}
+			} else if pos != off {
+				dev = fmt.Sprintf("Seek = %d", pos)
+				return
+			}
+			buf := make([]byte, want)
+			n, err := io.ReadFull(rs, buf)
+			if !bytes.Equal(buf[:n], data[off:off+int64(n)]) {
+				dev = fmt.Sprintf("read of %d bytes returned %d WRONG bytes %x (the file has %x there), err=%v", want, n, buf[:n], data[off:off+int64(n)], err)
+				return
+			}
+			if err != nil && !isInjected(err) {
+				dev = fmt.Sprintf("read of %d bytes delivered %d bytes and then %v: not the load error", want, n, err)
+				return
+			}
+			st.FailReadAt, st.Missing = 0, map[cid.Cid]bool{}
+			if err != nil {
+				if persistent {
+					return // what a reader does after a persistent fault is the subject of the heal check
+				}
+				n2, err2 := io.ReadFull(rs, buf[n:])
+				if err2 != nil || !bytes.Equal(buf, data[off:off+int64(want)]) {
+					dev = fmt.Sprintf("read met the transient fault after %d bytes; retried on the same reader: %d more bytes, err=%v, giving %x (the file has %x)", n, n2, err2, buf[:n+n2], data[off:off+int64(want)])
+					return
+				}
+			}
+			rest, err := io.ReadAll(rs)
+			if err != nil && isInjected(err) && !persistent {
+				// the k-th load came only now
+				more, err2 := io.ReadAll(rs)
+				rest, err = append(rest, more...), err2
+			}
+			if err != nil || !bytes.Equal(rest, data[off+int64(want):]) {
+				dev = fmt.Sprintf("rest of the file after the positioned read: %d bytes, err=%v, want %d; first difference at +%d", len(rest), err, int64(len(data))-off-int64(want), firstDiff(rest, data[off+int64(want):]))
+			}
+		})
+		st.FailReadAt, st.Missing = 0, map[cid.Cid]bool{}
+		if dev != "" {
+			t.Fatalf("C12 [%s]: %s", desc, dev)
+		}
+		posClass := "inside"
+		if in == 0 {
+			posClass = "chunk-start"
+		}
+		ev.Case(fmt.Sprintf("w%d n%s %s %s", w, bucket(nchunks), posClass, fault), true, fmt.Sprintf("width:%d", w), "position:"+posClass, "fault:"+fault)
+		ev.Sample(map[string]any{"case": desc, "read": want})
 	})
 }
